@@ -15,6 +15,7 @@
 #include <functional>
 #include <cstdint>
 #include <cmath>
+#include <stdexcept>
 #define private public
 #define protected public
 #include "sat_core.h"
@@ -364,4 +365,239 @@ namespace vh
       return "";
     }
   };
+
+  // ---------------------------------------------------------------------------------------------------------
+  // per-request semantic judge: a small complete DPLL solver over the implementation's own clause set, so that the returned
+  // literal can be tested against the requested arguments right after EVERY request, whatever the number of variables
+  // ---------------------------------------------------------------------------------------------------------
+  struct mini_sat
+  {
+    size_t nv = 0;
+    std::vector<std::vector<long>> cls; // literals 2*var+sign
+    std::vector<signed char> root;      // -1 undefined, 0 false, 1 true
+
+    explicit mini_sat(const sat_core &s) : nv(s.assigns.size()), root(s.assigns.size(), -1)
+    {
+      for (size_t v = 0; v < nv; ++v)
+        if (s.assigns[v] == True)
+          root[v] = 1;
+        else if (s.assigns[v] == False)
+          root[v] = 0;
+      for (const auto &c : s.constrs)
+      {
+        std::vector<long> ls;
+        for (const auto &l : static_cast<const clause *>(c)->lits)
+          ls.push_back(idx_of(l));
+        cls.push_back(ls);
+      }
+    }
+
+    static int lv(const std::vector<signed char> &a, long x)
+    {
+      signed char v = a[x >> 1];
+      return v < 0 ? -1 : ((v != 0) == ((x & 1) != 0) ? 1 : 0);
+    }
+
+    // unit propagation to fixpoint; false on conflict
+    bool up(std::vector<signed char> &a) const
+    {
+      bool changed = true;
+      while (changed)
+      {
+        changed = false;
+        for (const auto &c : cls)
+        {
+          long unit = -1;
+          int undef = 0;
+          bool sat_ = false;
+          for (long x : c)
+          {
+            int t = lv(a, x);
+            if (t == 1)
+            {
+              sat_ = true;
+              break;
+            }
+            if (t < 0 && (undef == 0 || x != unit))
+            {
+              ++undef;
+              unit = x;
+            }
+          }
+          if (sat_)
+            continue;
+          if (undef == 0)
+            return false;
+          if (undef == 1)
+          {
+            a[unit >> 1] = (unit & 1) ? 1 : 0;
+            changed = true;
+          }
+        }
+      }
+      return true;
+    }
+
+    bool dpll(std::vector<signed char> &a, size_t &budget) const
+    {
+      if (!up(a))
+        return false;
+      // branch on an undefined variable of some unsatisfied clause
+      long pick = -1;
+      for (const auto &c : cls)
+      {
+        bool sat_ = false;
+        long u = -1;
+        for (long x : c)
+        {
+          int t = lv(a, x);
+          if (t == 1)
+          {
+            sat_ = true;
+            break;
+          }
+          if (t < 0)
+            u = x;
+        }
+        if (!sat_ && u >= 0)
+        {
+          pick = u;
+          break;
+        }
+      }
+      if (pick < 0)
+        return true; // every clause satisfied: the remaining variables are free
+      if (budget == 0)
+        throw std::runtime_error("budget");
+      --budget;
+      for (int ph = 0; ph < 2; ++ph)
+      {
+        std::vector<signed char> b = a;
+        b[pick >> 1] = ((pick & 1) != 0) == (ph == 0) ? 1 : 0;
+        if (dpll(b, budget))
+        {
+          a = b;
+          return true;
+        }
+      }
+      return false;
+    }
+
+    // 1 satisfiable (model in out), 0 unsatisfiable, -1 gave up
+    int solve(const std::vector<long> &assumptions, std::vector<signed char> &out) const
+    {
+      std::vector<signed char> a = root;
+      if (nv > 0 && a[0] < 0)
+        a[0] = 0;
+      for (long x : assumptions)
+      {
+        int t = lv(a, x);
+        if (t == 0)
+          return 0;
+        a[x >> 1] = (x & 1) ? 1 : 0;
+      }
+      size_t budget = 20000;
+      try
+      {
+        if (!dpll(a, budget))
+          return 0;
+      }
+      catch (const std::runtime_error &)
+      {
+        return -1;
+      }
+      out = a;
+      return 1;
+    }
+  };
+
+  // assignments of the given variables to try: all of them when few, otherwise the corners and seeded random ones
+  inline std::vector<std::vector<bool>> sample_assignments(size_t k, uint64_t seed)
+  {
+    std::vector<std::vector<bool>> out;
+    if (k <= 5)
+    {
+      for (uint64_t m = 0; m < (1ull << k); ++m)
+      {
+        std::vector<bool> a(k);
+        for (size_t i = 0; i < k; ++i)
+          a[i] = (m >> i) & 1;
+        out.push_back(a);
+      }
+      return out;
+    }
+    out.emplace_back(k, true);
+    out.emplace_back(k, false);
+    for (size_t i = 0; i < k && i < 10; ++i)
+    {
+      std::vector<bool> a(k, true), b(k, false);
+      a[(i * 7) % k] = false;
+      b[(i * 7) % k] = true;
+      out.push_back(a);
+      out.push_back(b);
+    }
+    uint64_t z = seed * 6364136223846793005ull + 1442695040888963407ull;
+    for (int r = 0; r < 12; ++r)
+    {
+      std::vector<bool> a(k);
+      for (size_t i = 0; i < k; ++i)
+      {
+        z = z * 6364136223846793005ull + 1442695040888963407ull;
+        a[i] = (z >> 33) & 1;
+      }
+      out.push_back(a);
+    }
+    return out;
+  }
+
+  // meaning of the literal returned by request q, tested on the clause set as it is right after the request:
+  // for every tried assignment sigma of the argument variables that is consistent with the network, no model extending sigma may
+  // give the literal a value other than its formula (eq/conj/disj), resp. make it true while the constraint fails (amo/exct).
+  inline std::string judge_request(const sat_core &s, const request &q, size_t op_index)
+  {
+    mini_sat ms(s);
+    std::vector<size_t> vars;
+    for (long x : q.args)
+      if (std::find(vars.begin(), vars.end(), static_cast<size_t>(x >> 1)) == vars.end())
+        vars.push_back(x >> 1);
+    size_t tried = 0, consistent = 0;
+    for (const auto &sg : sample_assignments(vars.size(), op_index + q.args.size()))
+    {
+      std::vector<long> as;
+      std::map<size_t, bool> val;
+      for (size_t i = 0; i < vars.size(); ++i)
+      {
+        as.push_back(2 * static_cast<long>(vars[i]) + (sg[i] ? 1 : 0));
+        val[vars[i]] = sg[i];
+      }
+      ++tried;
+      std::vector<signed char> m;
+      int r0 = ms.solve(as, m);
+      if (r0 != 1)
+        continue; // sigma contradicts the network (root values, nested constructs, user clauses), or gave up
+      ++consistent;
+      bool f = judge::eval_req(q, [&](long x) { return val[x >> 1] == ((x & 1) != 0); });
+      const bool one_sided = q.kind == 'M' || q.kind == 'X';
+      // a model extending sigma in which the literal has the forbidden value
+      std::vector<long> bad = as;
+      if (one_sided)
+      {
+        if (f)
+          continue;
+        bad.push_back(q.res); // literal true although the constraint fails
+      }
+      else
+        bad.push_back(f ? (q.res ^ 1) : q.res);
+      int r1 = ms.solve(bad, m);
+      if (r1 == 1)
+      {
+        std::ostringstream o;
+        o << "meaning op=" << op_index << " kind=" << q.kind << " lit=" << q.res << " lit_value=" << (one_sided || !f) << " formula=" << f << " args_assignment=";
+        for (size_t i = 0; i < vars.size(); ++i)
+          o << "b" << vars[i] << "=" << sg[i] << (i + 1 < vars.size() ? "," : "");
+        return o.str();
+      }
+    }
+    return "ok tried=" + std::to_string(tried) + " consistent=" + std::to_string(consistent);
+  }
 } // namespace vh
